@@ -1193,6 +1193,43 @@ func (pc *PeerConnection) LocalDescription() *SessionDescription {
 	return pc.CurrentLocalDescription()
 }
 
+// validateRemoteDescription performs the checks of SetRemoteDescription that depend on the
+// description alone, so that an invalid description is rejected before the signaling state
+// and the pending/current descriptions are changed.
+func (pc *PeerConnection) validateRemoteDescription(desc *SessionDescription, isRenegotiation bool) error {
+	detectedPlanB := descriptionIsPlanB(desc, pc.log)
+	if pc.configuration.SDPSemantics != SDPSemanticsUnifiedPlan {
+		detectedPlanB = descriptionPossiblyPlanB(desc)
+	}
+
+	for _, media := range desc.parsed.MediaDescriptions {
+		if desc.Type != SDPTypeAnswer && !detectedPlanB && getMidValue(media) == "" {
+			return errPeerConnRemoteDescriptionWithoutMidValue
+		}
+		if !strings.EqualFold(media.MediaName.Media, "audio") && !strings.EqualFold(media.MediaName.Media, "video") {
+			continue
+		}
+		if _, err := codecsFromMediaDescription(media); err != nil {
+			return err
+		}
+		if _, err := rtpExtensionsFromMediaDescription(media); err != nil {
+			return err
+		}
+	}
+
+	if _, err := extractICEDetails(desc.parsed, pc.log); err != nil {
+		return err
+	}
+
+	if !isRenegotiation {
+		if _, _, err := extractFingerprint(desc.parsed); err != nil {
+			return err
+		}
+	}
+
+	return nil
+}
+
 // SetRemoteDescription sets the SessionDescription of the remote peer
 //
 //nolint:gocognit,gocyclo,cyclop,maintidx
@@ -1209,6 +1246,10 @@ func (pc *PeerConnection) SetRemoteDescription(desc SessionDescription) error {
 	}
 
 	if _, err := desc.Unmarshal(); err != nil {
+		return err
+	}
+
+	if err := pc.validateRemoteDescription(&desc, isRenegotiation); err != nil {
 		return err
 	}
 
